@@ -27,6 +27,8 @@ type proxyIn struct {
 	Wire    []wireHdr `json:"wire"`
 	Host    string    `json:"host"`    // Host header the client sends
 	TLS     bool      `json:"tls"`     // connect to the TLS-terminating front
+	Interim bool      `json:"interim"` // the upstream sends an informational response (103 Early Hints) before the final one
+	V6      bool      `json:"v6"`      // connect over IPv6 loopback (the peer address is then [::1]:port) when the machine has it
 	HostOpt string    `json:"hostopt"` // route option host= ("" | "dst" | literal)
 	Strip   string    `json:"strip"`   // route option strip=
 	Cfg     cfgIn     `json:"cfg"`
@@ -56,11 +58,13 @@ type c08env struct {
 	up       *httptest.Server
 	front    *httptest.Server
 	frontTLS *httptest.Server
+	front6, frontTLS6 *httptest.Server // the same handler behind [::1] listeners (nil without IPv6 loopback)
 	upURL    *url.URL
 	tr       *http.Transport
 
 	mu      sync.Mutex
 	cur     *proxy.HTTPProxy
+	interim bool
 	conn    connOut
 	reached bool
 	uhost   string
@@ -82,6 +86,7 @@ func getEnv() *c08env {
 			e.reached = true
 			e.uhost = r.Host
 			e.uhdr = r.Header.Clone()
+			interim := e.interim
 			e.mu.Unlock()
 			if isWSUpgrade(r.Header) {
 				if hj, ok := w.(http.Hijacker); ok {
@@ -92,6 +97,10 @@ func getEnv() *c08env {
 					}
 					return
 				}
+			}
+			if interim {
+				w.Header().Set("Link", "</style.css>; rel=preload; as=style")
+				w.WriteHeader(http.StatusEarlyHints)
 			}
 			w.Write([]byte("ok"))
 		}))
@@ -108,6 +117,14 @@ func getEnv() *c08env {
 		})
 		e.front = httptest.NewServer(front)
 		e.frontTLS = httptest.NewTLSServer(front)
+		if l6, err := net.Listen("tcp6", "[::1]:0"); err == nil {
+			e.front6 = &httptest.Server{Listener: l6, Config: &http.Server{Handler: front}}
+			e.front6.Start()
+			if l6t, err := net.Listen("tcp6", "[::1]:0"); err == nil {
+				e.frontTLS6 = &httptest.Server{Listener: l6t, Config: &http.Server{Handler: front}}
+				e.frontTLS6.StartTLS()
+			}
+		}
 		theEnv = e
 	})
 	return theEnv
@@ -136,15 +153,19 @@ func runProxy(raw json.RawMessage) (interface{}, error) {
 			return &route.Target{URL: e.upURL, Host: in.HostOpt, StripPath: in.Strip}
 		},
 	}
-	e.reached, e.uhost, e.uhdr, e.conn = false, "", nil, connOut{}
+	e.reached, e.uhost, e.uhdr, e.conn, e.interim = false, "", nil, connOut{}, in.Interim
 	e.mu.Unlock()
 
 	var c net.Conn
 	var err error
+	plain, secure := e.front, e.frontTLS
+	if in.V6 && e.front6 != nil && e.frontTLS6 != nil {
+		plain, secure = e.front6, e.frontTLS6
+	}
 	if in.TLS {
-		c, err = tls.Dial("tcp", e.frontTLS.Listener.Addr().String(), &tls.Config{InsecureSkipVerify: true})
+		c, err = tls.Dial("tcp", secure.Listener.Addr().String(), &tls.Config{InsecureSkipVerify: true})
 	} else {
-		c, err = net.Dial("tcp", e.front.Listener.Addr().String())
+		c, err = net.Dial("tcp", plain.Listener.Addr().String())
 	}
 	if err != nil {
 		return nil, err
@@ -169,7 +190,7 @@ func runProxy(raw json.RawMessage) (interface{}, error) {
 	if _, err := c.Write([]byte(b.String())); err != nil {
 		return nil, err
 	}
-	resp, err := http.ReadResponse(bufio.NewReader(c), nil)
+	resp, err := readFinalResponse(bufio.NewReader(c))
 	if err != nil {
 		return nil, err
 	}
@@ -179,6 +200,19 @@ func runProxy(raw json.RawMessage) (interface{}, error) {
 	out := proxyOut{Status: resp.StatusCode, Reached: e.reached, UHost: e.uhost, Hdr: canonHeader(e.uhdr),
 		STS: append([]string{}, resp.Header.Values("Strict-Transport-Security")...), Conn: e.conn, Target: e.upURL.Host}
 	return out, nil
+}
+
+// readFinalResponse reads responses until the final one: informational responses (1xx other than 101) precede it.
+func readFinalResponse(br *bufio.Reader) (*http.Response, error) {
+	for {
+		resp, err := http.ReadResponse(br, nil)
+		if err != nil {
+			return nil, err
+		}
+		if resp.StatusCode >= 200 || resp.StatusCode == http.StatusSwitchingProtocols {
+			return resp, nil
+		}
+	}
 }
 
 func validName(k string) bool {
@@ -231,6 +265,8 @@ func genProxy(r *hx.Rand, i int) interface{} {
 		in.Host = r.Pick(pHostChoices)
 	}
 	in.TLS = r.Chance(2, 5)
+	in.V6 = r.Chance(1, 4)
+	in.Interim = r.Chance(1, 8)
 	switch r.Intn(5) {
 	case 0, 1:
 		in.HostOpt = ""
@@ -253,6 +289,11 @@ func init() {
 		Corpus: []interface{}{
 			proxyIn{Host: "foo.com"},
 			proxyIn{Host: "foo.com", TLS: true, Cfg: cfgIn{TLSH: "X-Tls", TLSV: "on", Age: 31536000, Sub: true, Pre: true}},
+			// the upstream answers 103 Early Hints first: the final response still carries what fabio adds
+			proxyIn{Host: "foo.com", TLS: true, Interim: true, Cfg: cfgIn{Age: 31536000, Sub: true}},
+			// an IPv6 peer: the address goes into the headers without brackets
+			proxyIn{Host: "[::1]:8080", V6: true, Cfg: cfgIn{CIP: "X-Client-Ip"}, Wire: []wireHdr{{"x-forwarded-for", sp("2001:db8::1")}}},
+			proxyIn{Host: "foo.com", V6: true, TLS: true, Cfg: cfgIn{CIP: "X-Client-Ip"}, Wire: []wireHdr{{"Upgrade", sp("websocket")}, {"x-real-ip", sp("")}}},
 			// D12: route option host=up.example must not change what X-Forwarded-Host/-Port say
 			proxyIn{Host: "client.example:8080", HostOpt: "up.example"},
 			proxyIn{Host: "client.example:8080", HostOpt: "dst"},
